@@ -14,6 +14,7 @@
                                      working tableau after both loops | tableau of the returned circuit from the zero state
     BM n <rows>                   -> gate list of the model of `to_circuit("BM20")` | tableau of it from the zero state | CNOT cost
                                      (RAISES: an exception)
+    RP n hasinit [<rows>] nitems item* nf q_1..q_nf nshots (ncoins coin* fcoin*nf)*  -> per shot `collapse outcomes;final sample`, joined by ' / '
     EX n hasinit [<rows>] nitems item* ncoins coin*   -> REFUSED | ENGINE | DONE <tableau> | outcomes
          item = G flag hasop name a b k | M collapse m q_1..q_m | N hasop name a b k
 -/
@@ -209,6 +210,60 @@ def handle : P String := do
     match toCircuitBM20 n T with
     | some gs => pure s!"{showGates gs} | {showT n ((runGates gs (zeroState n)).map (norm n))} | {cnotCost n T}"
     | none => pure "RAISES"
+  | "RP" =>
+    let n ← nextNat
+    let hasInit ← nextNat
+    let mut init : Option Tableau := none
+    if hasInit == 1 then
+      init := some (← nextTableau n)
+    let ni ← nextNat
+    let mut items : List QItem := []
+    let mut ok := true
+    for _ in [0:ni] do
+      let kind ← nextTok
+      match kind with
+      | "G" =>
+        let flag ← nextNat
+        let hasop ← nextNat
+        let g ← nextGate
+        if hasop == 1 && g.isNone then ok := false
+        items := QItem.gate (flag == 1) (if hasop == 1 then g else none) :: items
+      | "M" =>
+        let cl ← nextNat
+        let m ← nextNat
+        let mut qs := []
+        for _ in [0:m] do
+          qs := (← nextNat) :: qs
+        items := QItem.meas qs.reverse (cl == 1) :: items
+      | "N" =>
+        let hasop ← nextNat
+        let g ← nextGate
+        if hasop == 1 && g.isNone then ok := false
+        items := QItem.noise (if hasop == 1 then g else none) :: items
+      | _ => ok := false
+    let nf ← nextNat
+    let mut fq := []
+    for _ in [0:nf] do
+      fq := (← nextNat) :: fq
+    let nshots ← nextNat
+    let mut shots : List (List Bool × List Bool) := []
+    for _ in [0:nshots] do
+      let nc ← nextNat
+      let mut coins := []
+      for _ in [0:nc] do
+        coins := ((← nextNat) == 1) :: coins
+      let mut fc := []
+      for _ in [0:nf] do
+        fc := ((← nextNat) == 1) :: fc
+      shots := (coins.reverse, fc.reverse) :: shots
+    if !ok then pure "bad-item" else
+    let rs := executeRepeated n init items.reverse fq.reverse shots.reverse
+    let showShot := fun (p : Res × List Bool) =>
+      match p.1 with
+      | .refused => "REFUSED"
+      | .engineError => "ENGINE"
+      | .done _ outs => ",".intercalate (outs.map fun o => String.ofList (o.map bit)) ++ ";" ++ String.ofList (p.2.map bit)
+    pure (" / ".intercalate (rs.map showShot))
   | "AG" =>
     let n ← nextNat
     let T ← nextTableau n
